@@ -12,6 +12,9 @@ import (
 	"strings"
 	"time"
 
+	"golang.org/x/crypto/ssh"
+
+	"github.com/smallstep/certificates/authority/provisioner"
 	"github.com/smallstep/certificates/db"
 )
 
@@ -85,6 +88,68 @@ func (d *Simple) UseToken(id, tok string) (bool, error) {
 		return false, e
 	}
 	return ok, err
+}
+
+// certificate storage (what a handler does once the authorization has succeeded): observed under "storecert" / "storesshcert"
+// with the serial as key. *db.DB has the chain variant the authority prefers; SimpleDB only the plain ones.
+func (d *DB) StoreCertificateChain(p provisioner.Interface, chain ...*x509.Certificate) error {
+	key := chain[0].SerialNumber.String()
+	if err := d.H.before("storecert", key); err != nil {
+		return err
+	}
+	err := d.DB.StoreCertificateChain(p, chain...)
+	if e := d.H.after("storecert", key, err == nil, err); e != nil {
+		return e
+	}
+	return err
+}
+
+func (d *DB) StoreCertificate(crt *x509.Certificate) error {
+	key := crt.SerialNumber.String()
+	if err := d.H.before("storecert", key); err != nil {
+		return err
+	}
+	err := d.DB.StoreCertificate(crt)
+	if e := d.H.after("storecert", key, err == nil, err); e != nil {
+		return e
+	}
+	return err
+}
+
+func (d *Simple) StoreCertificate(crt *x509.Certificate) error {
+	key := crt.SerialNumber.String()
+	if err := d.H.before("storecert", key); err != nil {
+		return err
+	}
+	err := d.SimpleDB.StoreCertificate(crt)
+	if e := d.H.after("storecert", key, err == nil, err); e != nil {
+		return e
+	}
+	return err
+}
+
+func (d *DB) StoreSSHCertificate(crt *ssh.Certificate) error {
+	key := strconv.FormatUint(crt.Serial, 10)
+	if err := d.H.before("storesshcert", key); err != nil {
+		return err
+	}
+	err := d.DB.StoreSSHCertificate(crt)
+	if e := d.H.after("storesshcert", key, err == nil, err); e != nil {
+		return e
+	}
+	return err
+}
+
+func (d *Simple) StoreSSHCertificate(crt *ssh.Certificate) error {
+	key := strconv.FormatUint(crt.Serial, 10)
+	if err := d.H.before("storesshcert", key); err != nil {
+		return err
+	}
+	err := d.SimpleDB.StoreSSHCertificate(crt)
+	if e := d.H.after("storesshcert", key, err == nil, err); e != nil {
+		return e
+	}
+	return err
 }
 
 func (d *DB) Revoke(rci *db.RevokedCertificateInfo) error {
